@@ -65,6 +65,9 @@ type Document struct {
 	pointerCache sync.Map // map[string]Node
 
 	families FamilyNodes
+
+	// familiesMutex protects families.
+	familiesMutex sync.Mutex
 }
 
 // String will render the entire GEDCOM document.
@@ -133,6 +136,11 @@ func (doc *Document) NodeByPointer(ptr string) Node {
 
 // Families returns the family entities in the document.
 func (doc *Document) Families() (families FamilyNodes) {
+	// The families are asked for by several goroutines when individuals are
+	// compared with Jobs > 1.
+	doc.familiesMutex.Lock()
+	defer doc.familiesMutex.Unlock()
+
 	if doc.families != nil {
 		return doc.families
 	}
